@@ -12,6 +12,10 @@ pub struct MemberModel {
     pub wire: &'static str,
     pub required: bool,
     pub target: &'static str,
+    /// Smithy type of the target shape (string, integer, long, boolean, timestamp, list, enum, structure, blob, map, union, …)
+    pub shape: &'static str,
+    /// bound to the HTTP status code (httpResponseCode)
+    pub status: bool,
 }
 
 #[derive(Debug)]
